@@ -5,11 +5,9 @@ from props.b10util import parse_expanded as parse_out, show_out, coq_ops, coq_un
 
 ID = "C19"
 THEOREMS = ["C19_base_untouched", "C19_commit_abs", "C19_view_partial", "C19_commit_partial",
-            "C19_view_refuted_iter", "C19_view_refuted_cas_after_remove", "C19_view_refuted_shallow_clear",
-            "C19_view_refuted_iter_objects", "C19_commit_refuted_shallow_clear",
-            "C19_guard_tight_iter", "C19_guard_tight_cas"]
+            "C19_view_refuted_iter_objects", "C19_guard_tight_iter_objects"]
 MODEL_FILES = ["Txn.v"]
-MODELLED = ("storage/transactional: ReferenceStorage {SetReference, CheckAndSetReference, Reference, IterReferences, "
+MODELLED = ("storage/transactional (with the three fix commits): ReferenceStorage {SetReference, CheckAndSetReference, Reference, IterReferences, "
             "RemoveReference, Commit}, ObjectStorage {SetEncodedObject, HasEncodedObject, EncodedObjectSize, EncodedObject, "
             "IterEncodedObjects, Commit}, IndexStorage, ConfigStorage, ShallowStorage, ReflogStorage, basic.Commit (Model/Txn.v) "
             "over abstract base/temporal stores (Spec/AStore.v); spec: spec_txn = base + view (Spec/AStore.v). Not modelled: "
@@ -136,12 +134,27 @@ class Main(Suite):
     name = "main"
     go_cmd = "c19"
     coq_imports = "From GoGit Require Import Spec.AStore Model.Txn."
-    quick_n = 500
-    thorough_n = 8000
+    quick_n = 400
+    thorough_n = 2500
     coq_chunk = 250
 
-    def gen(self, rng, n, tier):
+    def exhaustive(self):
+        """small scope, thorough tier: every sequence of <= 3 calls over one name / one object / one shallow value,
+        on a base that holds the name, the object, a shallow list and a reflog"""
+        import itertools
+        alphabet = [["setref", 0, ["h", 1]], ["cas", 0, ["h", 2], 0, ["h", 0]], ["cas", 0, ["h", 2], 0, ["h", 1]], ["getref", 0],
+                    ["iterrefs"], ["delref", 0], ["setobj", 0], ["iterobjs", 0], ["setshallow", []], ["setshallow", [1]],
+                    ["getshallow"], ["applog", 0, 7], ["dellog", 0], ["getlog", 0]]
+        init = [["setref", 0, ["h", 0]], ["setobj", 0], ["setshallow", [0]], ["applog", 0, 1]]
         cases = []
+        for k in (1, 2, 3):
+            for seq in itertools.product(alphabet, repeat=k):
+                cases.append({"bucket": "exhaustive-%d" % k, "base": "memory" if len(cases) % 3 else "memfs", "pack": False,
+                              "names": NAMES, "objs": OBJS, "init": init, "ops": [list(o) for o in seq]})
+        return cases
+
+    def gen(self, rng, n, tier):
+        cases = self.exhaustive() if tier == "thorough" else []
         buckets = [(3, "refs"), (2, "objs"), (2, "misc"), (2, "logs"), (4, "mixed"), (3, "targeted")]
         for _ in range(n):
             b = pick_weighted(rng, buckets)
@@ -276,17 +289,6 @@ class Main(Suite):
         if not d or not d[2]:
             return None         # the implementation departs from the model of the unchanged tree: never a known finding
         idx, label, _, got, want = d
-        if label == "iterrefs":
-            return "iter-lists-base-and-temporal"
-        if label == "cas":
-            on = case["ops"][idx][3]
-            if any(o[0] == "delref" and o[1] == on for o in case["ops"][:idx]) and got[0][idx] == ["ok"]:
-                return "cas-after-remove"
-            return None
-        if label == "getshallow" or label == "base-after-commit:shallow":
-            if any(o[0] == "setshallow" and o[1] == [] for o in case["ops"]):
-                return "shallow-clear-invisible"
-            return None
         if label == "iterobjs":
             g, w = got[0][idx], want[0][idx]
             if isinstance(g, list) and isinstance(w, list) and sorted(set(g[1:])) == sorted(set(w[1:])):
@@ -295,10 +297,19 @@ class Main(Suite):
         return None
 
     def extra(self, ctx, cases, impl, model):
-        kinds = {}
+        kinds, classes = {}, {}
         for c in cases:
             for o in c["ops"]:
                 kinds[o[0]] = kinds.get(o[0], 0) + 1
+            r = impl.get(c["id"])
+            if r and not r.get("panic"):
+                try:
+                    got = parse_out(r["out"])
+                    for o, g in zip(c["ops"], got[0]):
+                        k = o[0] + ":" + (g[1] if g[:1] == ["err"] else "ok")
+                        classes[k] = classes.get(k, 0) + 1
+                except Exception:
+                    pass
         sample = cases[:12] + cases[12::max(1, len(cases) // 40)]
         outs = ctx.coq_eval(self.coq_imports, [self.spec_expr(c) for c in sample], chunk=self.coq_chunk)
         bad = 0
@@ -306,7 +317,7 @@ class Main(Suite):
             if o is None or parse_out(o) != self.spec(c):
                 bad += 1
                 ctx.notes.append("spec_mismatch: python abstract transaction vs Spec/AStore.v on case %s" % c["id"])
-        return {"calls_by_kind": kinds, "bases": {b: sum(1 for c in cases if c["base"] == b) for _, b in BASES},
+        return {"calls_by_kind": kinds, "answers_by_call_and_class": classes, "bases": {b: sum(1 for c in cases if c["base"] == b) for _, b in BASES},
                 "spec_crosscheck_cases": len(sample), "spec_mismatches": bad}
 
 
